@@ -333,6 +333,28 @@ def oracle(c, stats):
         got_dihedrals = U.calc_dihedrals([list(b) for b in bonds])
     check_enumeration("angle", got_angles, want_angles, bonds)
     check_enumeration("dihedral", got_dihedrals, want_dihedrals, bonds)
+    # one bond list object (list of lists / integer array) enumerated, rewritten in place - relisted in another order and
+    # direction, then rewired to the renamed graph - and enumerated again: the result follows the present contents
+    relisted = [tuple(b[::-1]) if (k + c["shuffle_seed"]) % 2 else tuple(b) for k, b in enumerate(shuffled(bonds, c["shuffle_seed"], 6))]
+    rewired = [(c["rename"][u], c["rename"][v]) for u, v in bonds]
+    for form in ("list", "array"):
+        obj = [list(b) for b in bonds] if form == "list" else np.array(bonds, dtype=int).reshape(-1, 2)
+        with silenced():
+            U.calc_angles(obj)
+            U.calc_dihedrals(obj)
+        for label, content in (("relisted in place", relisted), ("rewired in place", rewired)):
+            for k, b in enumerate(content):
+                obj[k][0], obj[k][1] = b[0], b[1]
+            wa, wd = brute_terms(n, content)
+            with silenced():
+                ga = U.calc_angles(obj)
+                gd = U.calc_dihedrals(obj)
+            try:
+                check_enumeration("angle", ga, wa, content)
+                check_enumeration("dihedral", gd, wd, content)
+            except Violation as v:
+                raise Violation(v.kind + "-after-in-place-edit", "bond %s %s after an earlier enumeration: %s" % (form, label, v.detail))
+    stats.count("bond-list-enumerated-again-after-in-place-edit")
     # typing on permuted / reversed term lists
     angles = shuffled(sorted(want_angles), c["shuffle_seed"], 1)
     dihedrals = shuffled(sorted(want_dihedrals), c["shuffle_seed"], 2)
